@@ -218,3 +218,60 @@ package lite
 //@   props C32
 //@   at-call tryBackends as try
 //@   at-call handleFallbackResponse as fallback: assert [fallback-only-after-every-backend-failed] called(try) && res(try, 3) != nil
+
+// ---- C31: what the backend and the client receive -----------------------------------------------------------------
+// The framed handshake: VarInt(|payload|) then the payload bytes as they stand in the packet context.
+//@ func writePacket
+//@   props C31
+//@   at-call WriteVarInt as ln: assert ref(arg0) == ref(dst) && arg1 == len(pc.Payload)
+//@   at-call Write as body: assert [payload-as-it-stands] called(ln) && res(ln) == nil && arg0 == dst && ref(arg1) == ref(pc.Payload) && len(arg1) == len(pc.Payload)
+//@   ensures [length-then-payload] result == nil ==> called(ln) && called(body)
+// Re-encoding (only when the handshake was rewritten): packet id VarInt then the handshake's own encoding.
+//@ func update
+//@   props C31
+//@   at-call WriteVarInt as id: assert arg1 == int(pc.PacketID)
+//@   at-call Encode as enc: assert called(id) && arg0 == h && arg1 == pc && ref(arg2) == ref(arg(id, 0))
+//@   at-store Payload: assert [payload-is-the-re-encoding] called(enc)
+
+// Dialling a backend: the PROXY header is written iff the route enables it, carrying the client's source address, and
+// before anything else; the handshake context is re-encoded only if the virtual host was rewritten (route option and
+// cleaned host differs from the backend host) or TCPShield real-IP applies (route option and marker present) or the
+// caller asked for it; then the handshake goes out through writePacket - untouched otherwise.
+//@ func dialRoute
+//@   props C31
+//@   at-call ProxyHeader as ph: assert [header-only-if-the-route-enables-it] route.ProxyProtocol && arg0 == srcAddr
+//@   at-call WriteTo as hw: assert [header-first] called(ph) && !called(wp) && arg0 == res(ph)
+//@   at-call ClearVirtualHost as clean: assert route.ModifyVirtualHost && streq(arg0, handshake.ServerAddress)
+//@   at-call HostStr as bh: assert streq(arg0, backendAddr)
+//@   at-call EqualFold as samehost: assert called(clean) && called(bh) && streq(arg0, res(clean)) && streq(arg1, res(bh))
+//@   at-call ReplaceAll as rewrite: assert [virtual-host-rewritten-only-if-enabled-and-different] route.ModifyVirtualHost && called(samehost) && !res(samehost) && streq(arg1, res(clean)) && streq(arg2, res(bh))
+//@   at-call GetTCPShieldRealIP as tso
+//@   at-call IsTCPShieldRealIP as tsm: assert called(tso) && res(tso)
+//@   at-call TCPShieldRealIP as shield: assert [tcpshield-only-if-enabled-and-marked] called(tso) && res(tso) && called(tsm) && res(tsm) && arg1 == srcAddr
+//@   at-call update as upd: assert [re-encoded-only-after-a-rewrite] (called(rewrite) || called(shield) || forceUpdatePacketContext) && arg0 == handshakeCtx && arg1 == handshake
+//@   at-call writePacket as wp: assert [handshake-after-the-header] arg1 == handshakeCtx && (called(ph) ==> called(hw) && res(hw, 1) == nil)
+//@   ensures [header-iff-enabled] called(wp) ==> (called(ph) == old(route.ProxyProtocol))
+//@   at-call DialContext as dial: assert streq(arg3, backendAddr)
+//@   ensures [dial-failure-sends-nothing] called(dial) && (res(dial, 1) != nil ==> !called(wp) && !called(hw) && err != nil)
+
+// Bytes the client sent before the route was chosen (still in the read buffer) go to the backend first, unchanged.
+//@ func emptyReadBuff
+//@   props C31
+//@   at-call ReadBuffered as rb
+//@   at-call Write as w: assert [buffered-bytes-unchanged] called(rb) && res(rb, 1) == nil && len(res(rb, 0)) != 0 && arg0 == dst && ref(arg1) == ref(res(rb, 0)) && len(arg1) == len(res(rb, 0))
+//@   ensures [read-error-is-an-error] called(rb) && res(rb, 1) != nil ==> result != nil && !called(w)
+// The pipe copies each direction into the other with nothing in between.
+//@ func pipe
+//@   props C31
+//@   at-call Copy as c2b: assert [client-to-backend] arg0 == dst && arg1 == src
+//@ func pipe$1
+//@   props C31
+//@   at-call Copy as b2c: assert [backend-to-client] arg0 == src && arg1 == dst
+// Forward: route, dial (header + handshake), buffered bytes, then the pipe between the client's raw connection and
+// the dialled backend; no route or no backend pipes nothing.
+//@ func Forward
+//@   props C31
+//@   at-call findRoute as fr
+//@   at-call tryBackends as try: assert called(fr) && res(fr, 5) == nil
+//@   at-call emptyReadBuff as erb: assert called(try) && res(try, 3) == nil && arg0 == client && arg1 == res(try, 2)
+//@   at-call pipe as p: assert [pipe-after-the-buffered-bytes] called(erb) && res(erb) == nil && arg1 == res(fr, 1) && arg2 == res(try, 2)
